@@ -5,21 +5,26 @@ from contracts import condition as _c   # noqa: F401
 NS = ["Notification", "Interrupt.parked_or_scheduled"]
 DEAD_NEW = "forall_new(Interrupt, lambda i: i.sub is None and (i._revoked or not i.scheduled))"
 RESULT = OPT(TUP(ANY, OPT(REF("BaseException"))))
+default_scope(NS + ["Task", "Done", "NotDone", "coroutine", "Scope", "Condition", "CancelTask"])
+
 
 # ghost view of a native coroutine object: its state and (for task runners) the task it belongs to
+# state: 0 created (never activated), 1 started (running or suspended), 3 finished / closed
 model("coroutine", fields={}, ghost={"state": INT, "task": OPT(REF("Task"))}, ghost_defaults={"task": None}, final=["task"])
 
 model("Task", module="usim._primitives.task",
       fields={"payload": ANY, "_result": RESULT, "__runner__": REF("coroutine"), "_cancellations": LIST(REF("CancelTask")),
               "_done": REF("Done"), "__volatile__": BOOL, "parent": REF("Scope")},
-      ghost={"reported": BOOL},        # parent.__child_finished__ was called for this task
-      ghost_defaults={"reported": False},
+      ghost={"reported": BOOL,         # parent.__child_finished__ was called for this task
+             "linked": BOOL,           # Scope.do has put it into the parent's child list
+             "cpos": INT, "vpos": INT},   # its index in parent._children / parent._volatile_children
+      ghost_defaults={"reported": False, "linked": False},
       final=["payload", "__runner__", "_done", "__volatile__", "parent"])
 model("Done", module="usim._primitives.task",
       fields={"_task": REF("Task"), "_value": BOOL, "_inverse": REF("NotDone")}, final=["_task", "_inverse"])
 model("NotDone", module="usim._primitives.task", fields={"_done": REF("Done")}, final=["_done"])
 model("CancelTask", module="usim._primitives.task", fields={"subject": REF("Task")}, final=["subject"])
-model("TaskCancelled", module="usim._primitives.task", fields={"subject": REF("Task")}, final=["subject"])
+model("TaskCancelled", module="usim._primitives.task", fields={"subject": REF("Task"), "__cause__": OPT(ANY)}, final=["subject"])
 
 # T1 (DESIGN Appendix F): done <=> result set; a finished, unreported task has a runner that never started
 invariant("Task", "wellformed",
@@ -31,14 +36,14 @@ invariant("Task", "closed_means_reported", "implies(self.__runner__.state == 3, 
 invariant("Task", "reported_means_done", "implies(self.reported, self._done._value and self.__runner__.state == 3)", props=["C04", "C06"])
 invariant("Task", "done_unreported_is_unstarted",
           "implies(self._done._value and not self.reported, self.__runner__.state == 0)", props=["C04", "C06", "C03"])
-invariant("coroutine", "state_range", "0 <= self.state and self.state <= 3", props=["C03"])
+invariant("coroutine", "state_range", "self.state == 0 or self.state == 1 or self.state == 3", props=["C03"])
 invariant("Done", "no_waiter_when_true", "implies(self._value, len(self._waiting) == 0)", props=["C08", "C06"])
 invariant("Done", "wellformed", "self._task is not None and self._task._done is self and self._inverse is not None and self._inverse._done is self",
           props=["C06"])
 invariant("NotDone", "no_waiter_when_true",
           "self._done is not None and self._done._inverse is self and implies(not self._done._value, len(self._waiting) == 0)", props=["C08"])
 
-contract("usim._primitives.task.try_close",
+contract("usim._primitives.task.try_close", allocates=False,
          params={"coroutine": ANY},
          # closing a payload that never started or that has finished runs no code of the simulation
          ensures=["True"], modifies=[], check_frame=False, inline=False, no_invariants=True,
@@ -46,15 +51,15 @@ contract("usim._primitives.task.try_close",
          note="ASSUMED effect-free: `close()` of a never-started or finished payload object",
          props=["C04"])
 
-contract("usim._primitives.task.Done.__set_done__",
+contract("usim._primitives.task.Done.__set_done__", allocates=False,
          params={"self": REF("Done")},
          requires=["not self._value"],         # the internal assertion: done is set exactly once
          asserts={1: "internal"},
          ensures=["self._value", "len(self._waiting) == 0",
                   "len(loop._pending) == len(old(loop._pending)) + len(old(self._waiting))",
-                  "forall(old(self._waiting), lambda w: w[1].scheduled and w[1].due == loop.time)",
-                  "forall(Interrupt, lambda i: implies(not exists(old(self._waiting), lambda w: w[1] is i), "
-                  "       i.scheduled == old(i.scheduled) and i.target is old(i.target) and i.due == old(i.due)))"],
+                  "forall(Interrupt, lambda i: i.scheduled == (old(i.scheduled) or old(i.sub) is self))",
+                  "forall(Interrupt, lambda i: i.due == ite(old(i.sub) is self and not old(i.scheduled), loop.time, old(i.due)))",
+                  'unchanged("Interrupt.target")'],
          modifies=["Done._value@self", "Notification._waiting@self", "Loop._pending@loop", "Interrupt.scheduled", "Interrupt.target", "Interrupt.due"],
          inv_scope=NS + ["Done.no_waiter_when_true"],
          note="called while Task.done_iff_result is being re-established by the caller",
@@ -80,7 +85,7 @@ RUNNER_CLOSED = ["self.state == 3",
                  "implies(old(self.state) != 1, unchanged_all_but_state)" if False else "True"]
 abstract_contract("coroutine", "close", [],
                   params={"self": REF("coroutine")},
-                  requires=["self.state == 1 or self.state == 3"],       # never a created runner (C03c), never a running one
+                  requires=["self.state == 1 or self.state == 3"],       # never a created runner (C03c)
                   ensures=RUNNER_CLOSED, havoc_all=True,
                   note="assumed from the coroutine protocol: close() throws GeneratorExit at the current suspension point and "
                        "runs the coroutine to completion synchronously (payloads that await inside GeneratorExit handling are invalid programs)",
@@ -112,7 +117,7 @@ contract("usim._primitives.task.Task.cancel",
 
 contract("usim._primitives.task.Task.__close__",
          params={"self": REF("Task"), "reason": REF("BaseException")},
-         requires=["self.__runner__.state != 2"],      # usage: a task does not close itself from inside its own payload
+         requires=["True"],
          ensures=["implies(old(self._result) is None, self._done._value)", "self._result is not None",
                   "implies(old(self._result) is not None, self._result == old(self._result) and self._done._value == old(self._done._value))",
                   "implies(old(self._result) is None, self._result[1] is reason and self._result[0] is None)",
@@ -138,3 +143,53 @@ contract("usim._primitives.task.Task.__exception__",
          params={"self": REF("Task")}, returns=OPT(REF("BaseException")), pure=True, modifies=[],
          requires=["self._result is not None"], asserts={1: "usage"},
          ensures=["result is self._result[1]"], props=["C05", "C06"])
+
+# T7: the task of a started, unfinished runner is not done; a live cancellation is addressed to its subject's runner
+invariant("Task", "started_is_not_done", "implies(self.__runner__.state == 1, not self._done._value)", props=["C06", "C03"])
+invariant("Task", "unstarted_result_is_final",
+          "implies(self.__runner__.state == 0, len(self._cancellations) == 0 and implies(self._result is not None, self._done._value))",
+          props=["C06", "C04"])
+invariant("CancelTask", "addressed_to_subject",
+          "self.sub is None and implies(self.scheduled, self.subject is not None and self.target is self.subject.__runner__)", props=["C03", "C06"])
+invariant("Task", "cancellations_wf",
+          "forall(self._cancellations, lambda c: c is not None and c.subject is self and c.sub is None and "
+          "       implies(c.scheduled, c.target is self.__runner__))", props=["C03", "C06"])
+
+contract("usim._primitives.task.Task.__init__",
+         params={"self": REF("Task"), "payload": ANY, "parent": REF("Scope"), "delay": OPT(REAL), "at": OPT(REAL), "volatile": BOOL},
+         ensures=["self.payload is payload", "self.parent is parent", "self.__volatile__ == volatile", "self._result is None",
+                  "len(self._cancellations) == 0", "not self._done._value", "len(self._done._waiting) == 0",
+                  "fresh_obj(self.__runner__) and self.__runner__.state == 0 and self.__runner__.task is self",
+                  "not self.reported and not self.linked"],
+         ghost_exit=["self.__runner__.task = self"],
+         modifies=["Task.payload@self", "Task.parent@self", "Task.__volatile__@self", "Task._result@self", "Task._cancellations@self",
+                   "Task._done@self", "Task.__runner__@self"],
+         check_frame=False,
+         props=["C06", "C04"])
+
+contract("usim._primitives.task.Task.__init__.payload_wrapper",
+         params={"self": REF("Task"), "delay": OPT(REAL), "at": OPT(REAL)},
+         # K8/K-deliver for the signal-less first activation: the runner starts exactly once, as the running activity
+         assume_entry=["self.__runner__ is me", "loop.activity is me", "self.__runner__.state == 0", "self.linked and not self.reported",
+                       "implies(delay is not None, delay > 0)", "implies(at is not None, at > loop.time)", "delay is None or at is None"],
+         ghost_entry=["self.__runner__.state = 1"],
+         ghost_any_exit=["self.__runner__.state = 3"],
+         # coroutine protocol: a suspended task runner is closed only by Task.__close__, which stores the outcome first
+         # (GC finalisation through Task.__del__ is outside the model)
+         assume_on_close=["self._result is not None"],
+         stable=["self.__runner__.state", "self.reported", "self.linked"],
+         asserts={1: "internal"},
+         suspends=(0, None),
+         ensures=[
+             # every completion path: reported to the parent exactly once, done, outcome stored, no live cancellation left
+             "self.reported and self._done._value and self._result is not None",
+             "forall(self._cancellations, lambda c: c._revoked)",
+             # a task cancelled/closed before its first activation runs no payload code at all (C06, C04)
+             "implies(old(self._result) is not None, not user_code_ran() and self._result == old(self._result))"],
+         on_signal=["False"], on_close=["False"],     # nothing escapes the wrapper: every BaseException is an outcome
+         loop_invariants={"for#1": ["forall(int, lambda k: implies(0 <= k and k < _i, self._cancellations[k]._revoked))",
+                                    'unchanged_in_loop("Task._cancellations", "Task._result", "Task.reported", "Interrupt.scheduled", "Interrupt.sub", "Done._value")',
+                                    "forall(Interrupt, lambda i: implies(i.sub is not None, i._revoked == at_loop_entry(i._revoked)))",
+                                    "forall(Interrupt, lambda i: implies(at_loop_entry(i._revoked), i._revoked))",
+                                    "self._result is not None and self.reported and self.__runner__.state == 1"]},
+         props=["C03", "C04", "C05", "C06"])
